@@ -6,6 +6,7 @@ import gate
 
 CONFIGS = ['prod', 'testutils']
 EXPLANATION = (
+    'ST: every provided method of the Storage trait that takes documents (put_with_ctx, multi_put_with_ctx) interpreted with / without a context against an implementor answering Ok / an error: it calls the required method of its own name once with the caller\'s keyspace and documents and returns that result unchanged. '
     'SEM (primary): the five keyspace-actor handlers are interpreted sequentially on abstract messages (pre-state of the key x every answer storage can giv'
     'e, incl. a bulk call failing part-way; the real OrSWotSet code runs underneath): nothing is written for an operation the set refuses, a mutation reach'
     'es the set exactly when storage reported it written, the change stamp is bumped whenever the set changes, a purge forgets exactly what storage removed'
@@ -118,6 +119,10 @@ def check(ctx):
         tu = None
     if tu is not None:
         memstore_abs.check_memstore(ctx, tu, 'C02.MSEM')
+    # ST: the provided *_with_ctx methods of the Storage trait hand the implementor's answer on untouched (storage_abs) — the handler
+    # summaries take a storage call for an oracle that reports truthfully, and for the bundled backends the report is the required method's
+    import storage_abs
+    storage_abs.check_defaults(ctx, facts, 'C02.ST')
     import handlers_abs
     if handlers_abs.check_handlers(ctx, facts, 'C02.SEM'):
         gate.check_gate(ctx, facts, 'C02.G')
